@@ -306,7 +306,7 @@ def main(argv=None) -> int:
     rules = [n for n in raw if n.split()[0] in ('prop1', 'prop2', 'prop3', 'exists_quantifier', 'modus_ponens', 'generalization',
                                                 'instantiate', 'pop', 'save', 'load', 'publish', 'next')]
     f2 = run_bfs(chk, macro + rules, 4 if thorough else 3, caps, agg, 'macro')
-    seed = ('pattern (phi0 -> phi0)', 'publish', 'pattern (a -> b)', 'publish', 'next phase',
+    seed = ('pattern (phi0 -> phi0)', 'publish', 'pattern (1 -> a)', 'publish', 'next phase',
             'pattern (∃ x0 . x0)', 'publish', 'pattern (phi0 -> phi0)', 'publish', 'next phase')
     f3 = run_bfs(chk, raw, 4 if thorough else 3, (5, 4, 14), agg, 'proof-phase-seed/raw', seeds=(seed,))
     # a theory-less module whose single claim is provable in one step and is not an axiom: after its proof is published the
